@@ -491,7 +491,7 @@ def check_requery_after_rebuild(acc, n, gates, outs):
 
 
 def plan(tier):
-    t = [{'kind': 'helpers'}, {'kind': 'wrappers'}, {'kind': 'identity'}]
+    t = [{'kind': 'helpers'}, {'kind': 'wrappers'}, {'kind': 'widewrappers'}, {'kind': 'identity'}]
     shapes = [(0, 1), (0, 2), (1, 1), (1, 2), (2, 1), (2, 2), (3, 1), (1, 3)]
     if tier == 'thorough':
         shapes += [(3, 2), (4, 1), (2, 3)]
@@ -522,7 +522,7 @@ def plan(tier):
 
 def describe(tier):
     return {
-        'rule': 'wideif: functions of 9..12 (13) inputs depending on 2-3 of them, every ordered choice of positions from {0,1,2,7,8,9,n-2,n-1} with one >= 8: dependency queries incl. the order of the answer; funcs: every function table for the listed (n,m) in 7 representations (TruthTable from bools / strings, PyFunction from a '
+        'rule': 'widewrappers: from_int_unary/binary_func with operand/result widths 33..130 over a stated operand alphabet, both bit orders, against Python integers; wideif: functions of 9..12 (13) inputs depending on 2-3 of them, every ordered choice of positions from {0,1,2,7,8,9,n-2,n-1} with one >= 8: dependency queries incl. the order of the answer; funcs: every function table for the listed (n,m) in 7 representations (TruthTable from bools / strings, PyFunction from a '
         'list callable with and without output_size and from a 0/1-integer-valued callable, PyFunction.from_positional, Circuit as mux tree); circuits: every circuit of '
         'F(n,2,FULL) with outputs (last gate, first gate, first input) as its own function; identity: callables returning their argument list; sym4: all 65536 four-input functions for the symmetry/constancy/monotonicity queries; rebuild: table queried, last gate rebuilt under the same label with every other type, queried again; every '
         'protocol query with every index argument, both inverse values, every non-empty output subset for find_negations; answers '
@@ -596,12 +596,71 @@ def check_wide_interface(acc, n, shape, first=None):
         acc.outcome('fn', ('wide', n, shape))
 
 
+def check_int_wrappers_wide(acc):
+    """Integer-function wrappers with operand / result widths around and beyond 64 bits, over a stated operand
+    alphabet (0, 1, all-ones, top bit, 2^31, 2^32-1, 2^63, alternating)."""
+    from cirbo.core.python_function import PyFunction
+
+    def alphabet(w):
+        vals = {0, 1, (1 << w) - 1, 1 << (w - 1), int('10' * w, 2) & ((1 << w) - 1), int('01' * w, 2) & ((1 << w) - 1)}
+        for k in (31, 32, 63, 64, 65):
+            if k < w:
+                vals |= {1 << k, (1 << k) - 1}
+        return sorted(vals)
+
+    def bits_of(v, w, be):
+        b = [bool((v >> (w - 1 - i)) & 1) for i in range(w)]
+        return b if be else b[::-1]
+
+    fns1 = {'id': lambda x: x, 'plus1': lambda x: x + 1, 'shl35': lambda x: x << 35, 'square': lambda x: x * x, 'neg-free': lambda x: (x * 3) >> 1}
+    fns2 = {'add': lambda a, b: a + b, 'mul': lambda a, b: a * b, 'shl': lambda a, b: a << (b % 70)}
+    for be in (False, True):
+        for il, ol in ((33, 70), (40, 80), (64, 64), (64, 65), (65, 66), (70, 130), (16, 100)):
+            for nm, fn in fns1.items():
+                acc.states += 1
+                acc.traces += 1
+                case = {'wrapper': 'from_int_unary_func', 'func': nm, 'in': il, 'out': ol, 'big_endian': be, 'values': 'stated alphabet'}
+                try:
+                    pf = PyFunction.from_int_unary_func(fn, il, ol, big_endian=be)
+                    for v in alphabet(il):
+                        acc.transitions += 1
+                        want = bits_of(fn(v) % (1 << ol), ol, be)
+                        got = [bool(b) for b in pf.evaluate(bits_of(v, il, be))]
+                        if got != want:
+                            acc.violation('from_int_unary_func/wrong-bits', case, f'x={v}: result differs from Python integer arithmetic')
+                            break
+                except Exception as e:  # noqa: BLE001
+                    acc.violation(f'from_int_unary_func/raises-{type(e).__name__}', case, repr(e)[:200])
+            for nm, fn in fns2.items():
+                acc.states += 1
+                acc.traces += 1
+                case = {'wrapper': 'from_int_binary_func', 'func': nm, 'in': il, 'out': ol, 'big_endian': be, 'values': 'stated alphabet'}
+                try:
+                    pf = PyFunction.from_int_binary_func(fn, il, ol, big_endian=be)
+                    al = alphabet(il)
+                    for va in al:
+                        for vb in al[:6] + al[-2:]:
+                            acc.transitions += 1
+                            want = bits_of(fn(va, vb) % (1 << ol), ol, be)
+                            got = [bool(b) for b in pf.evaluate(bits_of(va, il, be) + bits_of(vb, il, be))]
+                            if got != want:
+                                acc.violation('from_int_binary_func/wrong-bits', case, f'a={va} b={vb}: result differs from Python integer arithmetic')
+                                raise StopIteration
+                except StopIteration:
+                    pass
+                except Exception as e:  # noqa: BLE001
+                    acc.violation(f'from_int_binary_func/raises-{type(e).__name__}', case, repr(e)[:200])
+    acc.outcome('fn', ('wide-wrappers',))
+
+
 def run_task(task, acc):
     k = task['kind']
     if k == 'helpers':
         return check_helpers(acc)
     if k == 'wrappers':
         return check_int_wrappers(acc)
+    if k == 'widewrappers':
+        return check_int_wrappers_wide(acc)
     if k == 'identity':
         return check_identity_callable(acc)
     if k == 'models':
@@ -640,7 +699,7 @@ def replay(case, acc):
     if 'helper' in case:
         return check_helpers(acc)
     if 'wrapper' in case:
-        return check_int_wrappers(acc)
+        return check_int_wrappers_wide(acc) if case.get('values') else check_int_wrappers(acc)
     if 'model' in case:
         n = case['n']
         m = len(case['model'])
